@@ -58,6 +58,8 @@ struct Upstream {
     /// Further questions of the request (lower-cased name, type).
     more: Vec<(String, Rtype)>,
     flags: Flags,
+    /// The request's opcode (0 = QUERY).
+    opcode: u8,
     class: RespClass,
     view: Option<View>, // None = transport error
 }
@@ -191,6 +193,7 @@ impl SendRequest<RequestMessage<Vec<u8>>> for UpstreamStub {
                 qclass: q.qclass(),
                 more,
                 flags,
+                opcode: h.opcode().to_int(),
                 class,
                 view,
             });
@@ -202,9 +205,77 @@ impl SendRequest<RequestMessage<Vec<u8>>> for UpstreamStub {
     }
 }
 
+/// A positive answer of more than 16 KiB, written with name compression: the
+/// address record with the serial, a filler TXT record sized so that the name
+/// of the additional section's first record - it comes again in the second -
+/// is first written at offset 0x3FFF, 0x4000 or 0x4001 (the last offset a
+/// compression pointer can name is 0x3FFF). A cache that writes its copies
+/// the same way meets the same offsets.
+fn build_big_response(req: &Message<Vec<u8>>, qname: &str, flags: Flags, serial: u32) -> Option<Message<Bytes>> {
+    // (Written octet by octet: the library's own compressing builder is what
+    // a cache is likely to use, and is not to be trusted with this.)
+    let target_off = 0x3FFF + sim::draw("up.big_name_offset", 3) as usize;
+    if !qname.to_ascii_lowercase().trim_end_matches('.').ends_with(".cache") {
+        return None;
+    }
+    let mb = MessageBuilder::from_target(Vec::new()).ok()?;
+    let mut ab = mb.start_answer(req, Rcode::NOERROR).ok()?;
+    ab.header_mut().set_ra(true);
+    ab.header_mut().set_rd(flags.rd);
+    ab.header_mut().set_cd(flags.cd);
+    let mut m: Vec<u8> = ab.finish();
+    let q_end = m.len();
+    let cache_at = (q_end - 4 - 7) as u16; // "\x05cache\x00" ends the question name
+    let rr = |m: &mut Vec<u8>, owner: &[u8], rtype: u16, ttl: u32, rdata: &[u8]| {
+        m.extend_from_slice(owner);
+        m.extend_from_slice(&rtype.to_be_bytes());
+        m.extend_from_slice(&1u16.to_be_bytes());
+        m.extend_from_slice(&ttl.to_be_bytes());
+        m.extend_from_slice(&(rdata.len() as u16).to_be_bytes());
+        m.extend_from_slice(rdata);
+    };
+    rr(&mut m, &[0xC0, 0x0C], 1, 3600, &serial.to_be_bytes());
+    let mut remaining = target_off.checked_sub(m.len() + 12)?;
+    let mut text = Vec::with_capacity(remaining);
+    let mut i = 0u32;
+    while remaining > 0 {
+        let chunk = remaining.min(256);
+        text.push((chunk - 1) as u8);
+        for _ in 1..chunk {
+            text.push(b'a' + (i % 26) as u8);
+            i += 1;
+        }
+        remaining -= chunk;
+    }
+    rr(&mut m, &[0xC0, 0x0C], 16, 3600, &text);
+    assert_eq!(m.len(), target_off);
+    let label = format!("ns{:x}", serial);
+    let mut ns = vec![label.len() as u8];
+    ns.extend_from_slice(label.as_bytes());
+    ns.extend_from_slice(&(0xC000 | cache_at).to_be_bytes());
+    rr(&mut m, &ns, 1, 3600, &(serial ^ 0x4000_0000).to_be_bytes());
+    let again = if target_off < 0x4000 { (0xC000 | target_off as u16).to_be_bytes().to_vec() } else { ns.clone() };
+    rr(&mut m, &again, 28, 3600, &(serial as u128).to_be_bytes());
+    let mut arcount = 2u16;
+    if req.opt().is_some() {
+        arcount += 1;
+        m.extend_from_slice(&[0, 0, 41, 0x04, 0xD0, 0, 0, if flags.dnssec_ok { 0x80 } else { 0 }, 0, 0, 0]);
+    }
+    m[6..8].copy_from_slice(&2u16.to_be_bytes());
+    m[8..10].copy_from_slice(&0u16.to_be_bytes());
+    m[10..12].copy_from_slice(&arcount.to_be_bytes());
+    sim::stat("probe.upstream_answer_beyond_the_pointer_limit");
+    Message::from_octets(Bytes::from(m)).ok()
+}
+
 fn build_response(req: &Message<Vec<u8>>, qname: &str, qtype: Rtype, flags: Flags, class: RespClass, serial: u32) -> Result<Message<Bytes>, Error> {
     if class == RespClass::TransportError {
         return Err(Error::StreamReadTimeout);
+    }
+    if class == RespClass::Positive && qtype == Rtype::A && sim::chance("up.big", 1, 20) {
+        if let Some(m) = build_big_response(req, qname, flags, serial) {
+            return Ok(m);
+        }
     }
     let owner = dns::name(qname);
     let apex = dns::name("cache.");
@@ -453,6 +524,7 @@ struct Query {
     /// Further questions (lower-cased name, type); nearly always none.
     more: Vec<(String, Rtype)>,
     flags: Flags,
+    opcode: u8,
     t_invoke: u64,
     t_return: u64,
     result: Result<View, String>,
@@ -586,7 +658,13 @@ fn check_against(q: &Query, r: &View, u: &Upstream, cfg: &Cfg) -> Result<(), (St
     if u.t_ret_ns > q.t_return {
         return e("from-the-future", "upstream response is younger than the delivery".into());
     }
+    if u.opcode != q.opcode {
+        return e("other-opcode", format!("the request has opcode {}, that upstream response answered opcode {}", q.opcode, u.opcode));
+    }
     let fresh = u.t_ret_ns >= q.t_invoke && u.flags == q.flags;
+    if !fresh && q.opcode != 0 {
+        return e("no-query-served-from-the-cache", format!("a request with opcode {} was answered with a response the upstream gave {:.3} s before it was made", q.opcode, q.t_invoke.saturating_sub(u.t_ret_ns) as f64 / 1e9));
+    }
     if !fresh {
         if let Err(why) = flags_compatible(&q.flags, &u.flags) {
             return e("incompatible-flags", why);
@@ -814,6 +892,16 @@ async fn run(_tier: Tier) {
                 mb.header_mut().set_rd(flags.rd);
                 mb.header_mut().set_cd(flags.cd);
                 mb.header_mut().set_ad(flags.ad);
+                // Now and then a message that is no query (NOTIFY, UPDATE,
+                // STATUS) for the same names and types: it goes upstream and
+                // gets its own answer, whatever the cache holds.
+                let opcode: u8 = if sim::chance("q.other_opcode", 1, 12) {
+                    sim::stat("probe.request_that_is_no_query");
+                    *sim::pick("q.opcode", &[4u8, 5, 2])
+                } else {
+                    0
+                };
+                mb.header_mut().set_opcode(domain::base::iana::Opcode::from_int(opcode));
                 let mut qb = mb.question();
                 qb.push((Name::<Vec<u8>>::from_chars(qname.chars()).unwrap(), qtype, qclass)).unwrap();
                 for (n2, t2) in &more {
@@ -859,6 +947,7 @@ async fn run(_tier: Tier) {
                     qclass,
                     more,
                     flags,
+                    opcode,
                     t_invoke,
                     t_return,
                     result,
